@@ -14,6 +14,7 @@ from asyncio import events
 
 import serial_asyncio
 
+from . import common  # noqa: F401  (must come first: puts the tree under test on sys.path)
 import nmea2000.ioclient as ioclient
 from nmea2000.ioclient import (ActisenseNmea2000Gateway, EByteNmea2000Gateway, State,
                                WaveShareNmea2000Gateway, YachtDevicesNmea2000Gateway)
